@@ -253,7 +253,7 @@ func (ex *Exec) contractCall(f *ssa.Function, c *Contract, args []Term, h *Heap,
 	n := ex.counters["call."+f.Name()]
 	var pos = ex.P.fset.Position(at.Pos())
 	for i, r := range c.Requires {
-		if r.OnlyProp != "" && !hasProp(q.props, r.OnlyProp) {
+		if !q.propActive(r.OnlyProp) {
 			continue
 		}
 		g := sc.evalBool(r)
@@ -418,7 +418,7 @@ func (ex *Exec) appendBuiltin(x ssa.Value, cc *ssa.CallCommon, h *Heap, reach Te
 	}
 	newLen := q.def("applen", add(slLen(s), n))
 	fits := q.def("appfits", le(newLen, slCap(s)))
-	if ins, ok := x.(ssa.Instruction); ok && hasProp(q.props, "C09") && !ex.skipAlloc {
+	if ins, ok := x.(ssa.Instruction); ok && q.propActive("C09") && !ex.skipAlloc {
 		q.declFun("ghost_membudget", "() Int")
 		bytes := app(sInt, "*", newLen, tInt(sizeOfType(st.Elem())))
 		q.oblige(ex.obName("guard.alloc"), "guard.alloc", reach, or(fits, le(bytes, tInt(4096+64)), lt(bytes, add(Term{"ghost_membudget", sInt}, tInt(64)))), ex.pos(ins),
